@@ -581,6 +581,16 @@ impl<'a> Gen<'a> {
             if self.rng.chance(1, 8) {
                 // an empty binary value as the very last property of the packet
                 props.push(pid::CORRELATION_DATA, PropVal::Bin(vec![]));
+            } else if self.rng.chance(1, 6) {
+                // opaque binary data: any byte values, zero bytes included (the "no null
+                // character" rule is for UTF-8 strings only)
+                let k = self.rng.urange(1, 6);
+                let mut b = self.rng.bytes(k);
+                if self.rng.coin() {
+                    let at = self.rng.usize_below(b.len());
+                    b[at] = 0;
+                }
+                props.push(pid::CORRELATION_DATA, PropVal::Bin(b));
             }
         }
         let plen = if self.cfg.rich && self.rng.chance(1, 400) {
@@ -701,6 +711,53 @@ impl<'a> Gen<'a> {
         }
     }
 
+    /// The identifier of a finished exchange - typically one whose caller had gone away and whose
+    /// late acknowledgement was absorbed - comes round again, as it does after a full cycle of
+    /// 65535 allocations: its new owner must complete on its own acknowledgement, whatever the
+    /// earlier exchange left behind.
+    pub fn id_comes_round(&mut self) -> bool {
+        let finished: Vec<(usize, u16)> = self
+            .world
+            .ops
+            .iter()
+            .filter(|(i, info)| {
+                matches!(&info.spec, OpSpec::Publish(p) if p.qos == Some(1) || p.qos == Some(2))
+                    && self.stage.get(*i) == Some(&Stage::Final)
+                    && !self.world.is_live(TaskRef::Op(**i))
+            })
+            .filter_map(|(i, _)| self.world.op_pid.get(i).map(|p| (*i, *p)))
+            .collect();
+        if finished.is_empty() {
+            return false;
+        }
+        let (_, x) = *self.rng.pick(&finished);
+        // nobody else may hold x, and the counter must be put back beyond everything in use
+        let holders = self.world.op_pid.iter().filter(|(i, p)| **p == x && self.stage.get(*i) != Some(&Stage::Final)).count();
+        let hi = self.world.op_pid.values().copied().max().unwrap_or(0);
+        if holders > 0 || hi >= 65_000 {
+            return false;
+        }
+        let max_sub = self.world.op_subid.values().copied().max().unwrap_or(0);
+        self.push(Step::SetNextIds { packet_id: x, sub_id: max_sub + 1000 });
+        let id = self.next_op_id();
+        let kind = if self.rng.chance(2, 3) { 1 } else { 2 };
+        let spec = self.new_op_spec(kind, id);
+        self.push(Step::Op { id, handle: 0, spec });
+        self.settle();
+        self.push(Step::SetNextIds { packet_id: hi + 1, sub_id: max_sub + 2000 });
+        if self.world.op_pid.get(&id) != Some(&x) {
+            return true; // (refused locally, or not reached the wire yet: nothing more to script)
+        }
+        if self.rng.chance(2, 3) {
+            let want = if kind == 1 { AckKind::Puback } else { AckKind::Pubrec };
+            if self.ack_candidates().contains(&(id, want)) {
+                self.send_ack(id, want);
+                self.settle();
+            }
+        }
+        true
+    }
+
     /// A burst of messages for one subscription, sized next to small powers of two (budgets,
     /// batch sizes and ring buffers live there).
     pub fn burst(&mut self) {
@@ -752,6 +809,11 @@ impl<'a> Gen<'a> {
     /// Subscriptions on the wire whose stream has not been opened yet.
     pub fn unopened_subs(&self) -> Vec<usize> {
         self.subs_on_wire().into_iter().filter(|s| !self.opened.contains(s)).collect()
+    }
+
+    /// Subscriptions whose stream has been opened and is still being consumed.
+    pub fn live_streams(&self) -> Vec<usize> {
+        self.opened.iter().copied().filter(|s| self.world.is_live(TaskRef::Consumer(*s))).collect()
     }
 
     pub fn opened_contains(&self, op: usize) -> bool {
